@@ -155,6 +155,17 @@ def _run_pair(case):
     if not np.allclose(p_nd, p_df[perm], atol=1e-12) or not np.allclose(p_ls, p_df[perm], atol=1e-12):
         V.append(viol("C13:thresholder:predict-container", "probabilities depend on container/order of the sensitive features: DataFrame %r, ndarray(permuted back) %r (%s)" % (
             p_df.tolist(), p_nd.tolist(), ctx), None, None, snip))
+    # a batch that contains rows of only ONE of the tuples must get that tuple's rule as well (group naming must not depend on the rest of the batch)
+    for which, tt, sl in (("first", t1, slice(0, 3)), ("second", t2, slice(3, 6))):
+        for cont in ("dataframe", "list"):
+            try:
+                p_one = np.asarray(t_._pmf_predict(Xq[sl], sensitive_features=_wrap([tt] * 3, cont)), float)[:, 1]
+            except Exception as ex:
+                V.append(viol("C13:thresholder:single-tuple-batch-raises-%s" % type(ex).__name__, "predict on a batch holding only the %s tuple raised %r (%s)" % (which, ex, ctx), None, None, snip))
+                continue
+            if not np.allclose(p_one, p_df[sl], atol=1e-12):
+                V.append(viol("C13:thresholder:single-tuple-batch", "rows of the %s tuple get %r when predicted alone but %r in a mixed batch (%s)" % (
+                    which, p_one.tolist(), p_df[sl].tolist(), ctx), p_df[sl].tolist(), p_one.tolist(), snip))
     # training-row probabilities must equalise selection rate (parity only holds if the two tuples are two groups)
     p_tr = np.asarray(t_._pmf_predict(X, sensitive_features=pd.DataFrame(rows, columns=["u", "v"])), float)[:, 1]
     sr1 = float(np.mean(p_tr[0::2]))
